@@ -1,4 +1,5 @@
-use biodivine_lib_param_bn::{BooleanNetwork, FnUpdate, VariableId};
+use biodivine_lib_param_bn::{BooleanNetwork, FnUpdate, ParameterId, VariableId};
+use std::collections::HashMap;
 use std::convert::TryFrom;
 use std::io::Read;
 
@@ -12,8 +13,10 @@ fn main() {
     let mut model = BooleanNetwork::try_from(buffer.as_str()).unwrap();
     //let introduce_parameters = collect_synthetic_parameter_names(&model);
     //println!("New parameters: {:?}", introduce_parameters);
+    // Synthetic parameters created so far (identified by `{function name}_{argument bits}`).
+    let mut synthetic = HashMap::new();
     for var in model.variables() {
-        flatten_update_function(&mut model, var);
+        flatten_update_function(&mut model, var, &mut synthetic);
     }
 
     println!("{}", model.to_bnet(false).unwrap());
@@ -21,7 +24,11 @@ fn main() {
 
 /// Replace the update function of the given `variable` with a flattened version using only
 /// zero arity parameters.
-fn flatten_update_function(network: &mut BooleanNetwork, variable: VariableId) {
+fn flatten_update_function(
+    network: &mut BooleanNetwork,
+    variable: VariableId,
+    synthetic: &mut HashMap<String, ParameterId>,
+) {
     if network.regulators(variable).is_empty() {
         // Skip zero-regulator variables.
         return;
@@ -29,7 +36,7 @@ fn flatten_update_function(network: &mut BooleanNetwork, variable: VariableId) {
 
     let flattened = if let Some(function) = network.get_update_function(variable) {
         let function = function.clone(); // Clone necessary for borrow checking.
-        flatten_fn_update(network, &function)
+        flatten_fn_update(network, &function, synthetic)
     } else {
         let regulators = network
             .regulators(variable)
@@ -37,26 +44,30 @@ fn flatten_update_function(network: &mut BooleanNetwork, variable: VariableId) {
             .map(FnUpdate::mk_var)
             .collect::<Vec<_>>();
         let name = format!("{}_", network.get_variable_name(variable));
-        explode_function(network, &regulators, name)
+        explode_function(network, &regulators, name, synthetic)
     };
     network
         .set_update_function(variable, Some(flattened))
         .unwrap();
 }
 
-fn flatten_fn_update(network: &mut BooleanNetwork, update: &FnUpdate) -> FnUpdate {
+fn flatten_fn_update(
+    network: &mut BooleanNetwork,
+    update: &FnUpdate,
+    synthetic: &mut HashMap<String, ParameterId>,
+) -> FnUpdate {
     match update {
         FnUpdate::Const(value) => FnUpdate::Const(*value),
         FnUpdate::Var(id) => FnUpdate::Var(*id),
-        FnUpdate::Not(update) => flatten_fn_update(network, update).negation(),
+        FnUpdate::Not(update) => flatten_fn_update(network, update, synthetic).negation(),
         FnUpdate::Param(id, args) => {
             let name = network.get_parameter(*id).get_name().clone();
-            explode_function(network, args, format!("{name}_"))
+            explode_function(network, args, format!("{name}_"), synthetic)
         }
         FnUpdate::Binary(op, left, right) => FnUpdate::Binary(
             *op,
-            Box::new(flatten_fn_update(network, left)),
-            Box::new(flatten_fn_update(network, right)),
+            Box::new(flatten_fn_update(network, left, synthetic)),
+            Box::new(flatten_fn_update(network, right, synthetic)),
         ),
     }
 }
@@ -65,16 +76,34 @@ fn explode_function(
     network: &mut BooleanNetwork,
     regulators: &[FnUpdate],
     name_prefix: String,
+    synthetic: &mut HashMap<String, ParameterId>,
 ) -> FnUpdate {
     if regulators.is_empty() {
-        let parameter = network.find_parameter(name_prefix.as_str());
-        let parameter =
-            parameter.unwrap_or_else(|| network.add_parameter(name_prefix.as_str(), 0).unwrap());
+        let parameter = *synthetic.entry(name_prefix.clone()).or_insert_with(|| {
+            // The name must not clash with a variable or with any other parameter of the network.
+            let mut name = name_prefix.clone();
+            while network.as_graph().find_variable(name.as_str()).is_some()
+                || network.find_parameter(name.as_str()).is_some()
+            {
+                name.push('_');
+            }
+            network.add_parameter(name.as_str(), 0).unwrap()
+        });
         FnUpdate::Param(parameter, Vec::new())
     } else {
         let regulator = regulators[0].clone();
-        let true_branch = explode_function(network, &regulators[1..], format!("{name_prefix}1"));
-        let false_branch = explode_function(network, &regulators[1..], format!("{name_prefix}0"));
+        let true_branch = explode_function(
+            network,
+            &regulators[1..],
+            format!("{name_prefix}1"),
+            synthetic,
+        );
+        let false_branch = explode_function(
+            network,
+            &regulators[1..],
+            format!("{name_prefix}0"),
+            synthetic,
+        );
         regulator
             .clone()
             .implies(true_branch)
